@@ -197,6 +197,14 @@ private:
       transportConfig.clientTls.keyFile = _tlsConfig.clientKeyFile;
 
       _transport = Transport::tcp(transportConfig); // HTTP client is TCP (S-3: shared_ptr factory)
+      // Bytes delivered while no exchange is reading (Async mode) are surplus:
+      // remember the session so the cached connection is evicted, not reused.
+      _transport->onData(
+        [this](SessionId sid, iora::core::BufferView, std::chrono::steady_clock::time_point)
+        {
+          std::lock_guard<std::mutex> surplusLock(_surplusMutex);
+          _surplusSessions.insert(sid);
+        });
       auto startResult = _transport->start();
       if (startResult.isErr())
       {
@@ -270,6 +278,17 @@ private:
   // Set by cleanup()/~HttpClient so blocked lease waiters wake and fail rather
   // than deadlock (DD-A8).
   mutable bool _closing{false};
+  // Sessions that delivered bytes OUTSIDE an exchange: the transport hands data
+  // to the onData callback only in ReadMode::Async, i.e. while the connection
+  // sits idle in the cache, or when the Sync->Async switch flushes bytes that
+  // arrived after the response had been framed. Such a connection has seen
+  // surplus bytes and must not carry another request (same rule as the surplus
+  // check in frameResponse). Written by the onData callback (I/O thread, or the
+  // flushing caller), consumed by acquireConnection/dropConnection. Guarded by
+  // its OWN mutex, which is never held across a transport call (cleanup() joins
+  // the I/O thread while holding _mutex, so the callback must not take _mutex).
+  mutable std::mutex _surplusMutex;
+  mutable std::unordered_set<SessionId> _surplusSessions;
 
   /// \brief URL parsing structure
   struct ParsedUrl
@@ -770,13 +789,19 @@ private:
       auto it = _connections.find(hostPort);
       if (it != _connections.end())
       {
+        bool sawSurplus = false;
+        {
+          std::lock_guard<std::mutex> surplusLock(_surplusMutex);
+          sawSurplus = _surplusSessions.erase(it->second.id) > 0;
+        }
         auto now = std::chrono::steady_clock::now();
-        if (now - it->second.lastUsed < _config.connectionIdleTimeout)
+        if (!sawSurplus && now - it->second.lastUsed < _config.connectionIdleTimeout)
         {
           it->second.lastUsed = now;
           return it->second.id;
         }
-        // Idle: close and evict, then fall through to reconnect.
+        // Idle, or it received unsolicited bytes while cached: close and evict,
+        // then fall through to reconnect.
         _transport->close(it->second.id);
         _connections.erase(it);
       }
@@ -853,6 +878,10 @@ private:
     if (it != _connections.end() && it->second.id == sessionId)
     {
       _connections.erase(it);
+    }
+    {
+      std::lock_guard<std::mutex> surplusLock(_surplusMutex);
+      _surplusSessions.erase(sessionId);
     }
     _transport->close(sessionId);
   }
